@@ -19,7 +19,7 @@ from typing import Any, Dict, List, Optional
 
 VERIF = os.path.dirname(os.path.dirname(os.path.abspath(__file__)))
 REPO = os.environ.get("DATASHARD_REPO", "/repo")
-SPEC = os.path.join(VERIF, "spec")
+SPEC = os.environ.get("VERIF_SPEC_DIR") or os.path.join(VERIF, "spec")      # (override: developing a spec change while checks run)
 # VERIF_OUT_DIR redirects evidence/replays (used only by mutation self-tests so they do not
 # clobber the evidence of the real tree)
 _OUT = os.environ.get("VERIF_OUT_DIR", VERIF)
